@@ -11,7 +11,7 @@ pub const POOL: &[&str] = &[
 
 /// More tokens that are interesting for one operation or another.
 pub const POOL2: &[&str] = &[
-    "a", "b", "c", "foo", "foobar", "bar", "2", "9", "11", "12", " ", "€", "😀", "٣", "~~", "//", "~/", "/~",
+    "a", "b", "c", "foo", "foobar", "bar", "2", "9", "11", "12", " ", "€", "😀", "٣", "\u{131}", "1\u{130}", "\u{132}", "\u{4e30}", "~~", "//", "~/", "/~",
     "a~", "~a", "~2", "-1", "--", "0x", "1e3", "18446744073709551615", "18446744073709551616", "A", "\u{0}",
     "\"", "\\", "e\u{301}", "key", "x",
 ];
